@@ -248,6 +248,12 @@ LoadMeshErr ESolver::LoadMesh(bool deleteFiles)
             }
             return MISSINGMATPROPS;
         }
+        // (a mesh without region attributes makes fscanf read the next index as label)
+        if (elm.lbl >= NumBlockLabels)
+        {
+            fclose(fp);
+            return ELMLABELTOOBIG;
+        }
         // look up block type out of the list of block labels
         elm.blk=labellist[elm.lbl].BlockType;
 
